@@ -725,6 +725,13 @@ theorem boundary_facts (c : Cls) (hv : c.valid = true) (t : Table) (ht : stencil
 section
 variable {α : Type} [Field α]
 
+theorem dotN_add_const (n : Nat) (row v : Nat → α) (c : α) :
+    dotN n row (fun k => v k + c) = dotN n row v + dotN n row (fun _ => c) := by
+  simp only [dotN_eq_sum]
+  induction List.range n with
+  | nil => simp
+  | cons x xs ih => simp only [List.map, List.sum_cons, ih]; ring
+
 theorem dotN_smul (n : Nat) (row v : Nat → α) (c : α) :
     dotN n row (fun k => c * v k) = c * dotN n row v := by
   simp only [dotN_eq_sum]
